@@ -46,6 +46,9 @@ def joblists(ck):
     for k in (kinds if not quick else ["definition", "hover", "documentLink"]):
         out.append([["open", "a.td", TEXT], req(1, k), ["open", "b.td", TEXT]])
     out.append([["open", "a.td", TEXT], ["open", "b.td", TEXT], ["open", "c.td", TEXT]])
+    # one didChange that carries several full-text content changes (legal LSP; they apply in order, it is one notification)
+    out.append([["open", "a.td", TEXT], ["change", "a.td", [TEXT + "// 1\n", TEXT + "// 2\n"]]])
+    out.append([["open", "a.td", TEXT], req(1, "hover"), ["change", "a.td", [TEXT + "// 1\n", TEXT + "// 2\n", TEXT]]])
     if not quick:
         for k1 in kinds[:4]:
             for k2 in kinds[:4]:
@@ -143,6 +146,8 @@ def run(ck):
         for k in range(rng.randrange(2, 6)):
             if rng.random() < 0.4:
                 script.append(["open", "n%d.td" % k, big + "// n%d\n" % k])      # a never-seen document
+            if rng.random() < 0.3:
+                script.append(["change", "a.td", [big + "// %da\n" % k, big + "// %db\n" % k]])     # several content changes in one notification
             script.append(["change", "a.td", big + "// %d\n" % k])
             if rng.random() < 0.7:
                 script.append(req(100 + k, rng.choice(list(READS)))[:])
